@@ -1,8 +1,191 @@
 /-
 Property C02 — tail calls run in bounded space.
+
+"A procedure call in tail position - the last expression of a procedure body, either arm of a tail
+if, the tail sub-form of a tail begin, let, let*, cond, case, and, or, when, unless, or the
+procedure handed to apply in such a position - does not consume interpreter stack, and a loop
+written with such calls (self, mutual, through a procedure parameter, with rest parameters)
+completes for any iteration count using stack and live heap that do not grow with the count. The
+loop also computes the same result as the equivalent bounded iteration."
+
+What is proved here is about the MODEL's activation counters: `Store.depth` is the number of
+`apply_procedure` activations alive (`applyProcedure` = `enter`, run the trampoline `applyLoop`,
+`leave`), `Store.maxDepth` the largest value `depth` ever had. They decide whether the Rust stack
+grows; real stack bytes and live heap are MEASURED by the correspondence check, not proved.
+
+Only property theorems live here (each is audited with `#print axioms`); helpers are in
+`RuschmProofs/TailLemmas.lean`, `RuschmProofs/ErrLemmas.lean`, `RuschmProofs/EvalLemmas.lean`.
+Vocabulary: `DepthOk σ σ'` := `σ'.depth = σ.depth ∧ σ.maxDepth ≤ σ'.maxDepth`; `EvalsSeq ρ σ es σ'`:
+the expressions `es` evaluate in order to values, from `σ` to `σ'`; the fuel-free judgements
+`Evals`, `EvalsArgs`, `Applies` (the loop), `AppliesProc` (one activation), `AppliesScheme`,
+`EvalsBody`, `EvalsTail` of `EvalLemmas.lean`.
 -/
 import RuschmProofs.TailLemmas
+
 namespace Ruschm.C02
 open Ruschm Ruschm.Eval Ruschm.Prim
+
+/-! ## 1. activations are balanced -/
+
+/-- EVERY evaluator function, for EVERY amount of fuel and EVERY outcome (value, error, even the
+fuel error) gives the store back with the `depth` it received (`enter`/`leave` are balanced), and
+never lowers `maxDepth`. -/
+theorem depth_restored (n : Nat) :
+    (∀ σ ρ e, DepthOk σ (evalExpr n σ ρ e).2) ∧
+    (∀ σ ρ es, DepthOk σ (evalArgs n σ ρ es).2) ∧
+    (∀ σ p as env, DepthOk σ (applyProcedure n σ p as env).2) ∧
+    (∀ σ p as env, DepthOk σ (applyLoop n σ p as env).2) ∧
+    (∀ σ lam cenv as, DepthOk σ (applyScheme n σ lam cenv as).2) ∧
+    (∀ σ ρ ds, DepthOk σ (evalDefs n σ ρ ds).2) ∧
+    (∀ σ ρ es, DepthOk σ (evalBody n σ ρ es).2) ∧
+    (∀ σ ρ e, DepthOk σ (evalTail n σ ρ e).2) :=
+  have h := depth_all n
+  ⟨h.expr, h.args, h.proc, h.loop, h.scheme, h.defs, h.body, h.tail⟩
+
+/-- the same for the fuel-free judgements -/
+theorem depth_restored_judgements :
+    (∀ {σ ρ e r σ'}, Evals σ ρ e r σ' → DepthOk σ σ') ∧
+    (∀ {σ ρ es r σ'}, EvalsArgs σ ρ es r σ' → DepthOk σ σ') ∧
+    (∀ {σ p as env r σ'}, AppliesProc σ p as env r σ' → DepthOk σ σ') ∧
+    (∀ {σ p as env r σ'}, Applies σ p as env r σ' → DepthOk σ σ') ∧
+    (∀ {σ lam cenv as r σ'}, AppliesScheme σ lam cenv as r σ' → DepthOk σ σ') ∧
+    (∀ {σ ρ ds r σ'}, EvalsDefs σ ρ ds r σ' → DepthOk σ σ') ∧
+    (∀ {σ ρ es r σ'}, EvalsBody σ ρ es r σ' → DepthOk σ σ') ∧
+    (∀ {σ ρ e r σ'}, EvalsTail σ ρ e r σ' → DepthOk σ σ') :=
+  ⟨Evals.depthOk, EvalsArgs.depthOk, AppliesProc.depthOk, Applies.depthOk, AppliesScheme.depthOk,
+   EvalsDefs.depthOk, EvalsBody.depthOk, EvalsTail.depthOk⟩
+
+example : (evalExpr 6 {} 0 (.call (.lambda (.mk ⟨[], none⟩ [] [.prim (.int 1) none]) none) [] none)).2.depth = 0 ∧
+    (evalExpr 6 {} 0 (.call (.lambda (.mk ⟨[], none⟩ [] [.prim (.int 1) none]) none) [] none)).2.maxDepth = 1 := by
+  simp [evalExpr, evalArgs, applyProcedure, applyLoop, applyScheme, evalDefs, evalBody, evalTail, procArity,
+    arityOk, enter, leave, Store.newFrame, bindFixed, Lambda.formals, Lambda.defs, Lambda.body]
+
+/-- an ordinary (non-tail) call DOES nest: the loop of the callee runs one level deeper, and the
+level is counted -/
+theorem nontail_call_nests {σ p args env r σ'} (h : AppliesProc σ p args env r σ') :
+    (∃ σ₁, Applies (enter σ) p args env r σ₁ ∧ σ' = leave σ₁) ∧ (enter σ).depth = σ.depth + 1 ∧
+    σ.depth + 1 ≤ σ'.maxDepth := by
+  obtain ⟨σ₁, hl, rfl⟩ := AppliesProc.iff_loop.mp h
+  refine ⟨⟨σ₁, hl, rfl⟩, rfl, ?_⟩
+  have := hl.depthOk.2
+  show σ.depth + 1 ≤ σ₁.maxDepth
+  exact Nat.le_trans (Nat.le_max_right _ _) this
+
+/-! ## 2. the trampoline does not nest -/
+
+/-- A user procedure whose body ends in a pending tail call: applying it IS (same outcome, same
+final store) continuing THE SAME loop with the callee, started in the store `σ₃` left by the
+non-tail parts (body, operator, operands) — and `σ₃` has the depth the loop was entered with.
+No activation is added for the callee: the final `maxDepth` is the one reached by the non-tail
+parts (`σ₃.maxDepth`) raised only by what the continued loop itself does; if the callee is a
+native procedure it is `σ₃.maxDepth`. -/
+theorem trampoline_no_nesting {σ : Store} {lam : Lambda} {cenv : Nat} {args : List Value} {env : Nat}
+    {f targs tenv σ₁ fv σ₂ vs σ₃}
+    (ha : arityOk lam.formals.fixed.length lam.formals.rest.isSome args.length = true)
+    (hs : AppliesScheme σ lam cenv args (.ok (.tailCall f targs tenv)) σ₁)
+    (hf : Evals σ₁ tenv f (.ok fv) σ₂) (hargs : EvalsArgs σ₂ tenv targs (.ok vs) σ₃)
+    (hp : (procArity fv).isSome) :
+    σ₃.depth = σ.depth ∧
+    (∀ r σ', Applies σ (.closure lam cenv) args env r σ' ↔ Applies σ₃ fv vs env r σ') ∧
+    (∀ b r σ', fv = .builtin b → b ≠ .apply → Applies σ (.closure lam cenv) args env r σ' →
+      σ'.maxDepth = σ₃.maxDepth) := by
+  refine ⟨((hs.depthOk.trans hf.depthOk).trans hargs.depthOk).1,
+    Applies.closure_tail_iff ha hs hf hargs hp, ?_⟩
+  rintro b r σ' rfl hb h
+  have h' := (Applies.closure_tail_iff ha hs hf hargs hp r σ').mp h
+  obtain ⟨n, _, hrun⟩ := Stable.at_succ h' 0
+  cases hok : arityOk b.arity.1 b.arity.2 vs.length with
+  | false =>
+    rw [applyLoop_arity_gate n σ₃ env (p := .builtin b) rfl hok] at hrun
+    cases hrun; rfl
+  | true =>
+    rw [applyLoop_builtin_step n σ₃ env hb hok] at hrun
+    have := (applyPure_counters σ₃ b vs).2
+    rw [hrun] at this; exact this
+
+/-- `apply` in the loop: the loop continues with the procedure it was handed, in the SAME store —
+no `enter`, no activation -/
+theorem apply_no_nesting {σ : Store} {args : List Value} {env : Nat} {f args'} (ha : 1 ≤ args.length)
+    (hs : spreadApply args = .ok (f, args')) (r σ') :
+    Applies σ (.builtin .apply) args env r σ' ↔ Applies σ f args' env r σ' :=
+  Applies.apply_iff ha hs r σ'
+
+example : spreadApply [.builtin .add, .num (.int 1), .pair (.num (.int 2)) .nil] =
+    .ok (.builtin .add, [.num (.int 1), .num (.int 2)]) := rfl
+
+/-- every iteration the trampoline reaches, through any number of pending tail calls and `apply`s,
+starts at the depth the loop was entered with -/
+theorem reaches_same_depth {env σ p args σq q qargs} (h : Reaches env σ p args σq q qargs) :
+    σq.depth = σ.depth := by
+  induction h with
+  | refl => rfl
+  | apply _ _ _ ih => exact ih
+  | tail _ hs hf hargs _ _ ih =>
+    exact ih.trans ((hs.depthOk.trans hf.depthOk).trans hargs.depthOk).1
+
+/-! ## 3. which expressions are tail expressions -/
+
+/-- `if` passes tail position to the chosen arm: after the test, `eval_tail_expression` of the `if`
+is `eval_tail_expression` of that arm (fuel level) -/
+theorem tail_if (n : Nat) (σ : Store) (ρ : Nat) (t c : Expr) (a : Option Expr) (l : Loc) :
+    evalTail (n+1) σ ρ (.cond t c a l) =
+      match evalExpr n σ ρ t with
+      | (.error er, σ₁) => (.error er, σ₁)
+      | (.ok tv, σ₁) =>
+        if tv.truthy then evalTail n σ₁ ρ c
+        else match a with
+          | some alt => evalTail n σ₁ ρ alt
+          | none => (.ok (.value .void), σ₁) := by
+  rw [evalTail]
+  generalize evalExpr n σ ρ t = x
+  obtain ⟨r, σ₁⟩ := x
+  cases r with
+  | error e => rfl
+  | ok tv =>
+    simp only
+    split
+    · rfl
+    · cases a <;> rfl
+
+/-- the same, fuel-free: given the test's value, the `if` in tail position has exactly the outcomes
+of the chosen arm in tail position -/
+theorem tail_if_judgement {σ ρ t c a l tv σ₁} (ht : Evals σ ρ t (.ok tv) σ₁) (r σ') :
+    EvalsTail σ ρ (.cond t c a l) r σ' ↔
+      if tv.truthy then EvalsTail σ₁ ρ c r σ'
+      else match a with
+        | some alt => EvalsTail σ₁ ρ alt r σ'
+        | none => r = .ok (.value .void) ∧ σ' = σ₁ :=
+  EvalsTail.cond_iff ht r σ'
+
+/-- a call in tail position is not evaluated: it is handed back to the trampoline -/
+theorem tail_call_pending (n : Nat) (σ : Store) (ρ : Nat) (f : Expr) (args : List Expr) (l : Loc) :
+    evalTail (n+1) σ ρ (.call f args l) = (.ok (.tailCall f args ρ), σ) := by
+  rw [evalTail]
+
+/-- the last expression of a body is evaluated by `eval_tail_expression`, the ones before it by
+`eval_expression` -/
+theorem tail_body_last (n : Nat) (σ : Store) (ρ : Nat) (e e' last : Expr) (es : List Expr) :
+    evalBody (n+1) σ ρ [last] = evalTail n σ ρ last ∧
+    evalBody (n+1) σ ρ (e :: e' :: es) =
+      match evalExpr n σ ρ e with
+      | (.error er, σ₁) => (.error er, σ₁)
+      | (.ok _, σ₁) => evalBody n σ₁ ρ (e' :: es) := by
+  constructor
+  · rw [evalBody]
+  · rw [evalBody]
+    · generalize evalExpr n σ ρ e = x
+      obtain ⟨r, σ₁⟩ := x
+      cases r <;> rfl
+    · simp
+
+/-- fuel-free: if the expressions before the last one evaluate (to values), the body's outcome is
+the last expression's outcome as a tail expression -/
+theorem tail_body_last_judgement {ρ σ es σ₁ last r σ'} (hs : EvalsSeq ρ σ es σ₁)
+    (ht : EvalsTail σ₁ ρ last r σ') : EvalsBody σ ρ (es ++ [last]) r σ' :=
+  EvalsBody.seq_last hs ht
+
+example : EvalsBody {} 0 ([.prim (.int 1) none] ++ [.call (.prim (.int 2) none) [] none])
+    (.ok (.tailCall (.prim (.int 2) none) [] 0)) {} :=
+  tail_body_last_judgement (.cons (Evals.prim rfl) .nil) EvalsTail.call
 
 end Ruschm.C02
